@@ -2688,6 +2688,10 @@ def cmd_hostile(args):
             acc.distinct.add(sha(data))
         wit = {"class": label, "size": len(data), "hex_head": C.hexs(data[:48])}
         acc.count("c11_header_only_calls")
+        if label.startswith("adversarial:"):
+            acc.count("c11_cases_adversarial:" + label.split(":")[1])
+        else:
+            acc.count("c11_cases_" + label.split(":")[0].split("-")[0])
         if rr.get("err2"):
             e2 = rr["err2"]
             acc.mismatch("C11|escape:%s@%s|get_code=False" % (e2[0], e2[1]), msg=e2[2], **wit)
